@@ -457,10 +457,11 @@ func (pp *proportionPlugin) allocateHandlerFn(ssn *framework.Session) func(event
 			}
 		}
 
-		leafQueue := pp.queues[job.Queue]
-		log.InfraLogger.V(7).Infof("Proportion AllocateFunc: job <%v/%v>, task resources <%s>, "+
-			"queue: <%v>, queue allocated resources: <%v>",
-			job.Namespace, job.Name, taskResources, leafQueue.Name, leafQueue.GetAllocatedShare())
+		if leafQueue, found := pp.queues[job.Queue]; found {
+			log.InfraLogger.V(7).Infof("Proportion AllocateFunc: job <%v/%v>, task resources <%s>, "+
+				"queue: <%v>, queue allocated resources: <%v>",
+				job.Namespace, job.Name, taskResources, leafQueue.Name, leafQueue.GetAllocatedShare())
+		}
 	}
 }
 
@@ -481,10 +482,11 @@ func (pp *proportionPlugin) deallocateHandlerFn(ssn *framework.Session) func(eve
 			}
 		}
 
-		leafQueue := pp.queues[job.Queue]
-		log.InfraLogger.V(7).Infof("Proportion DeallocateFunc: job <%v/%v>, task resources <%s>, "+
-			"queue: <%v>, queue allocated resources: <%v>",
-			job.Namespace, job.Name, taskResources, leafQueue.Name, leafQueue.GetAllocatedShare())
+		if leafQueue, found := pp.queues[job.Queue]; found {
+			log.InfraLogger.V(7).Infof("Proportion DeallocateFunc: job <%v/%v>, task resources <%s>, "+
+				"queue: <%v>, queue allocated resources: <%v>",
+				job.Namespace, job.Name, taskResources, leafQueue.Name, leafQueue.GetAllocatedShare())
+		}
 	}
 }
 
